@@ -1101,6 +1101,16 @@ func init() {
 					}
 				}
 			}
+			// balancing groups that only some matches of one call exercise (the capture stack is not empty at the
+			// end of those matches): Replace over the whole sequence against the captures FindNextMatch reports
+			for _, t := range []string{`(?<o>a)(?:(?<o>a)(?<-o>b))?`, `(?:(?<-o>b)(?<o>a))?(?<o>a)`, `(?<o>a)+(?<-o>b)?`} {
+				for _, o := range []int{0, patterns.OptRTL} {
+					for _, n := range []int{4, 5} {
+						us = append(us, Unit{ID: fmt.Sprintf("C02/%s/o%d/a%d", t, o, n), Harness: "entry", Domain: "full", PathBudget: 60000,
+							Params: map[string]string{"pattern": t, "options": itoa(o), "copts": "", "n": itoa(n), "mode": "s", "alphabet": "ab ", "key_extra": "a"}})
+					}
+				}
+			}
 			// the regexp-style adapter against the Regexp it wraps (any options, not only RE2: that is C06):
 			// byte pairs of every group, -1 pairs, the find-all sequence and its truncation, on raw bytes
 			// (n <= 2, thorough 3) and on subjects of 4-5 bytes over a three-letter alphabet
@@ -1322,6 +1332,13 @@ func init() {
 						Params: map[string]string{"pattern": t, "options": "512", "copts": "", "n": itoa(n), "runealphabet": "aéxy", "key_extra": "r"}})
 				}
 			}
+			// line anchors around runs of newlines
+			for _, t := range []string{`(?m)a\n*$`, `(?m)b\n?$`, `(?m)\n+$`, `(?m)^\n*a`, `a\n*$`, `(?m)$\n*a`, `(?s)a.$`} {
+				for _, n := range []int{3, 4} {
+					us = append(us, Unit{ID: fmt.Sprintf("C06/%s/r%d", t, n), Pkg: "compat", Harness: "compat", Domain: "full",
+						Params: map[string]string{"pattern": t, "options": "512", "copts": "", "n": itoa(n), "runealphabet": "a\nb", "key_extra": "rn"}})
+				}
+			}
 			return us
 		},
 		Rule:      "For each pattern of the RE2-common fragment and n: the subject is n raw symbolic bytes (invalid UTF-8 included) and the find-all limit k a solver variable in [-1,2]; the adapter (compiled with the RE2 option) and Go's regexp package are BOTH executed symbolically from their SSA on the same bytes; on every feasible path each of the 21 Matcher methods (string, []byte and RuneReader variants) is asserted to return the same value (nil-ness, byte offsets, -1 pairs, empty-match adjacency rule, k).",
@@ -1402,6 +1419,12 @@ func init() {
 				o := []int{0, patterns.OptI, patterns.OptE | 1024, patterns.OptRE2, patterns.OptRTL}[oi%5]
 				us = append(us, Unit{ID: fmt.Sprintf("C10/overflow/%q/p%d/o%d", sd, pos, o), Harness: "mutate", Domain: "full", StepBudget: 80_000_000, PathBudget: 40000,
 					Params: map[string]string{"pattern": sd, "positions": itoa(pos), "options": itoa(o), "texts": ",ab", "symtext": "0", "key_extra": "overflow", "copts": "b"}})
+			}
+			// the landmark-chain finder on texts that end inside a landmark
+			for _, sd := range []string{`\w+(?:\s+at\s+|@)\w*(?:\s+dot\s+|\.)\w+`, `[a-z]+(?:\s+at\s+|@)[a-z]+\.[a-z]+`} {
+				pos := len(sd) - 1
+				us = append(us, Unit{ID: fmt.Sprintf("C10/landmark/%q/p%d", sd, pos), Harness: "mutate", Domain: "full", StepBudget: 80_000_000, PathBudget: 40000,
+					Params: map[string]string{"pattern": sd, "positions": itoa(pos), "options": "0", "texts": ",a at,mail me at,a at b dot c,x at y dot z or at,a@b.c", "symtext": "0", "key_extra": "landmark", "copts": "b"}})
 			}
 			// ECMAScript classes that start with ']' ([] matches nothing, [^] anything): the capture-counting
 			// pre-scan and the parser must agree where the class ends
@@ -1503,6 +1526,14 @@ func init() {
 							params := map[string]string{"pattern": p.a, "pattern_b": p.b, "options": "0", "copts": "", "n": itoa(n), "hn": itoa(hn), "op": op, "history": h, "havoc": "1", "key_extra": op + "/havoc/" + h}
 							us = append(us, Unit{ID: fmt.Sprintf("C12/%s/%s/havoc/%s", p.a, op, h), Harness: "history", Params: params})
 						}
+					}
+				}
+				if pi == 0 {
+					// many capture groups nobody refers to: the bool-only program is much smaller than the full one
+					g24 := strings.Repeat(`(.)`, 24)
+					for _, c := range [][2]string{{"ms", "fs"}, {"fa", "rp"}, {"mr", "sp"}, {"fs", "ms"}} {
+						params := map[string]string{"pattern": g24, "pattern_b": p.b, "options": "0", "copts": "", "n": "1", "hn": "1", "op": c[1], "history": c[0], "pad0": "28", "pad": "28", "key_extra": "g24/" + c[1] + "/" + c[0]}
+						us = append(us, Unit{ID: fmt.Sprintf("C12/g24/%s/after/%s", c[1], c[0]), Harness: "history", StepBudget: 60_000_000, Params: params})
 					}
 				}
 				// right-to-left programs: own Replace / Split / find-all paths and buffers
